@@ -24,7 +24,14 @@ import shutil
 from . import common
 from .common import cN, cZ, cbool, cbytes, clist, cnat, copt, cstr
 
-THEOREMS = []
+THEOREMS = [
+    "cache_refines_map", "lookup_after_history", "get_never_raises", "damaged_entry_removed",
+    "put_then_get", "file_names_injective", "version_stamp_is_no_entry", "ids_do_not_alias",
+    "warm_fetches_nothing", "other_policy_no_cache",
+    "options_reattached", "options_reattached_partial", "reattach_schema_import_refuted",
+    "wrapped_follows_options", "wrapped_follows_options_partial", "wrapped_stale_refuted",
+    "toy_format_ok",
+]
 
 PRE = "From SV Require Import Lib.Base C11.Model."
 
